@@ -36,13 +36,18 @@ CLAIMED = {
         "ref": "5-C11",
     },
     "C16": {
-        "text": "Proof, for the ADDRESS-FORM SLICE of the property only: varlink_connect (client) and Listener::new (server, activated or not) return InvalidAddress for every "
+        "text": "Proof, for the ADDRESS-FORM and ACTIVATION clauses of the property only: varlink_connect (client) and Listener::new (server, activated or not) return InvalidAddress for every "
                 "address that starts with neither `tcp:` nor `unix:`, succeed only for those schemes, and cut `;parameters` off before connecting / binding; "
                 "activation_listener returns a descriptor only when LISTEN_FDS parses to n >= 1 and LISTEN_PID parses to this process id (3 for one fd, otherwise 3 + the index of "
-                "the first `varlink` entry of LISTEN_FDNAMES), and an activated Listener is only ever built from such a descriptor. NOT claimed: spawning, descriptor inheritance, "
-                "the environment given to a child, bridge stdio, and that all transports yield the same reply sequence (those clauses have no function-level contract).",
+                "the first `varlink` entry of LISTEN_FDNAMES), and an activated Listener is only ever built from such a descriptor; on the client side varlink_exec spawns `sh -c` with "
+                "VARLINK_ADDRESS=unix:<socket path> (the address it returns to the caller), LISTEN_FDS=1 and LISTEN_FDNAMES=varlink in the command's environment and a script that makes "
+                "the shell export its own pid as LISTEN_PID before `exec`; its pre_exec closure does not touch std::env and, whenever it returns Ok, has made descriptor 3 the "
+                "listening socket without the close-on-exec flag (dup2 onto 3, or clearing the flag when the socket already is 3). NOT claimed: that sh, exec and the service behave, "
+                "bridge stdio (varlink_bridge), and that all transports yield the same reply sequence (no function-level contract).",
         "note": NOTE_COMMON + "str::strip_prefix/starts_with, split(';'), split(':').enumerate(), parse::<usize>, env::var, process::id and socket bind/connect are stand-ins with assumed contracts; "
-                "`unsafe` from_raw_fd blocks are opaque; `#[cfg(windows)]` code is dropped; seeded changes to the unclaimed clauses of C16 will not be detected by this check.",
+                "`unsafe` from_raw_fd blocks are opaque; `#[cfg(windows)]` code is dropped; std::process::Command is a by-value builder stand-in recording arguments and environment whose "
+                "spawn() precondition is the obligation; dup2 / fcntl / is-close-on-exec are 'has happened' facts about the child's descriptor 3; env::set_var is given `requires false` "
+                "(std: the environment must not be used in pre_exec).",
         "ref": "5-C16",
     },
     "C18": {
